@@ -8,35 +8,35 @@ ROOT = os.path.join(os.path.dirname(os.path.abspath(__file__)), '..')
 PBT = 'exhaustive small-scope enumeration + seeded proptest generation with shrinking'
 CHECKS = {
     'C01': ('differential testing against a reference model of the Standard\'s decoders; ' + PBT,
-            'Exploration with an explicit oracle: every byte string of length <= 2 for all 40 encodings, EUC-JP 8F xx yy, lead+trail+class families, the gb18030 four-byte space (BMP table completely in quick, everything in thorough), UTF-8 3/4-byte families, ISO-2022-JP strings over an escape alphabet and all pairs in every state, UTF-16 surrogate arrangements and seeded grammar streams are decoded through four routes and compared with an independent transcription of the Standard run on frozen WHATWG index data. Exhaustive inside those scopes, sampled beyond; no proof of absence.',
+            'Exploration with an explicit oracle: every byte string of length <= 2 for all 40 encodings, EUC-JP 8F xx yy, lead+trail+class families, the gb18030 four-byte space (BMP table completely in quick, everything in thorough), UTF-8 3/4-byte families, ISO-2022-JP strings over an escape alphabet and all pairs in every state, UTF-16 surrogate arrangements, ISO-2022-JP atom sequences up to 4-5 atoms, two non-ASCII atoms at every stride-relevant distance inside ASCII, uniform runs of one atom and seeded grammar streams (one in 32 long) are decoded through four routes - and, for longer streams, through an output buffer shorter than the input - and compared with an independent transcription of the Standard run on frozen WHATWG index data. Exhaustive inside those scopes, sampled beyond; no proof of absence.',
             'Trusts the frozen golden data in /verif/data (provenance in data/PROVENANCE.md) and my reading of the Standard; only absolute (start,len) of malformed sequences is compared, not the chunking-dependent raw `after`.',
             'DESIGN.md sec. 6 C01, sec. 3'),
     'C02': ('metamorphic / differential testing of decoder call histories (chunked vs single call, UTF-8 vs UTF-16 form); ' + PBT,
-            'Exploration: a bounded-exhaustive core (streams built from representative atoms of every decoder x all cut sets incl. empty chunks x last on data/empty call x capacity patterns from the documented minimum up x sinks x replacement modes x BOM modes) plus seeded random histories on grammar streams, each compared with the single-call ample-buffer run of the same stream.',
+            'Exploration: a bounded-exhaustive core (streams built from representative atoms of every decoder x all cut sets incl. empty chunks x last on data/empty call x capacity patterns from the documented minimum up x sinks x replacement modes x BOM modes), stride / uniform-run / block-boundary / BOM-switch families (sec. 5) plus seeded random histories on grammar streams, each compared with the single-call ample-buffer run of the same stream.',
             'Model-free: the single-call result is tied to the Standard by C01. Capacities never below the documented minimum; raw `after` not compared.',
             'DESIGN.md sec. 6 C02, sec. 4'),
     'C03': ('differential testing against a reference model of the Standard\'s encoders; ' + PBT,
-            'Exploration with an explicit oracle: every scalar value alone through all 40 encodings from UTF-8 and UTF-16, raw and with replacement (exhaustive), every ordered pair (triples for ISO-2022-JP / thorough) over per-encoder class alphabets incl. lone surrogates, and seeded random texts, compared with an independent transcription of the Standard\'s encoders on frozen index data; thorough repeats it in the less-slow-*, fast-* and simd-accel builds.',
+            'Exploration with an explicit oracle: every scalar value alone through all 40 encodings from UTF-8 and UTF-16, raw and with replacement (exhaustive), every ordered pair (triples for ISO-2022-JP / thorough) over per-encoder class alphabets incl. lone surrogates, every BMP scalar directly after and before each state-setting context through slice and Vec methods with the end of the stream on the data call or on an empty call, two non-ASCII characters at stride-relevant distances inside ASCII, longer texts also through an output buffer shorter than the output, and seeded random texts, compared with an independent transcription of the Standard\'s encoders on frozen index data; thorough repeats it in the less-slow-*, fast-* and simd-accel builds.',
             'Trusts the frozen golden data and my transcription of the pointer rules, GB18030-2022 overrides and the ISO-2022-JP state machine.',
             'DESIGN.md sec. 6 C03, sec. 3'),
     'C04': ('metamorphic / differential testing of encoder call histories (chunked vs single call, UTF-8 vs UTF-16 source); ' + PBT,
-            'Exploration: bounded-exhaustive core (all texts up to 2-3 characters over class alphabets + lone surrogates x all cut sets x capacity patterns around every space-check threshold x sources x sinks x modes) plus seeded random histories, compared with the single-call run and with the other source form.',
+            'Exploration: bounded-exhaustive core (all texts up to 2-3 characters over class alphabets + lone surrogates x all cut sets x capacity patterns around every space-check threshold x sources x sinks x modes; alphabets contain a representative of every (UTF-8 length, encoded length) class), stride / uniform-run / block-boundary families plus seeded random histories, compared with the single-call run and with the other source form.',
             'Model-free (C03 ties the single-call result to the Standard). Caller obligations respected by construction: cuts never split a pair, capacities >= 4 / >= 14.',
             'DESIGN.md sec. 6 C04'),
     'C05': ('invariant checking over generated histories and mem calls (std::str::from_utf8 on the entire destination after every call); ' + PBT,
-            'Exploration: decoder histories into &mut str / String whose old contents are multi-byte filler at every phase, the mem *_to_str* functions with all destination lengths, one-shot decode methods and reuse of a finished decoder (panic caught); run in the default and the simd-accel build because the SIMD kernels store before validating.',
+            'Exploration: decoder histories into &mut str / String whose old contents are multi-byte filler at every phase, the mem *_to_str* functions with all destination lengths, one-shot decode methods, reuse of a finished decoder (panic caught), and &mut str / String destinations of 0..=3 bytes below the documented minimum (a panic is accepted there, an invalid str is not - this family found F9); run in the default and the simd-accel build because the SIMD kernels store before validating.',
             'std validation is the oracle; covers this CPU\'s dispatch arms only.',
             'DESIGN.md sec. 6 C05'),
     'C06': ('invariant checking with guard bands over generated histories and mem calls + coverage-guided fuzzing under AddressSanitizer (fuzz/); ' + PBT,
-            'Exploration: every streaming method and every mem function with sources/destinations carved out of larger buffers at alignments 0..15 with canary bands, documented-minimum capacities upward, arbitrary prior converter state; read/written/InputEmpty contract, no panic, no reallocation. Out-of-bounds reads are only visible to the ASan fuzz targets, which run the same drivers with exact-size heap allocations (thorough).',
+            'Exploration: every streaming method and every mem function with sources/destinations carved out of larger buffers at alignments 0..15 with canary bands, documented-minimum capacities upward, arbitrary prior converter state; read/written/InputEmpty contract, no panic, no reallocation; half of the cases against PROT_NONE guard pages; a separate family with destinations below the documented minimum (panic accepted, out-of-bounds write or written > dst.len() not). Out-of-bounds reads are only visible to the ASan fuzz targets, which run the same drivers with exact-size heap allocations (thorough).',
             'Guard bands see writes within 32 units; ASan campaigns are bounded by run count; UB without an observable effect stays invisible.',
             'DESIGN.md sec. 6 C06'),
     'C07': ('invariant checking over generated histories with query-then-call steps; overflow clause by monotonicity / growth extrapolation; ' + PBT,
-            'Exploration: histories whose steps ask the matching max_* query on the live converter and call with exactly that capacity, in every pending state reachable by atoms / cuts / BOM prefixes; plus the queries at ~70 lengths around usize::MAX/{1..8} in every such state.',
+            'Exploration: histories whose steps ask the matching max_* query on the live converter and call with exactly that capacity, in every pending state reachable by atoms / cuts / BOM prefixes / per-call method mixing, BOM followed by worst-case payload of the BOM\'s encoding, encoder alphabets with every (input length, output length) class; plus the queries at ~70 lengths around usize::MAX/{1..8} in every such state.',
             'Destination = exactly the queried value. The if_no_unmappables precondition is decided by the reference encoder model.',
             'DESIGN.md sec. 6 C07'),
     'C08': ('invariant checking (progress, linear call bound) over generated histories in the minimal-capacity regime; ' + PBT,
-            'Exploration: the C02/C04 history space restricted to capacities minimum..minimum+3 for decoders and encoders, all cut sets / sinks / modes; every non-final call must make progress and the loop must end within 4*units+16 calls (hard cap turns a hang into a violation).',
+            'Exploration: the C02/C04 history space restricted to capacities minimum..minimum+3 for decoders and encoders, all cut sets / sinks / modes, plus uniform runs of 15..33 non-ASCII units with capacities below and around a stride; every non-final call must make progress and the loop must end within 4*units+16 calls (hard cap turns a hang into a violation).',
             'Termination is checked as the stated safety bound.',
             'DESIGN.md sec. 6 C08'),
     'C09': ('differential testing: with-replacement methods vs the documented manual procedure run on a twin converter with identical buffers; ' + PBT,
@@ -44,11 +44,11 @@ CHECKS = {
             'Relates the two modes only (C01/C03 tie the raw mode to the Standard).',
             'DESIGN.md sec. 6 C09'),
     'C10': ('metamorphic testing of the BOM automaton (sniffing decoder on S == no-BOM decoder of the selected encoding on S minus BOM) + for_bom enumeration; ' + PBT,
-            'Exploration: every prefix of length 0..=3 over {EF BB BF FE FF 00 41 80} x tails x all cut sets of the first bytes x 3 BOM modes x sinks x capacities for all 40 encodings (exhaustive), atom-based core with BOM look-alike prefixes, seeded random histories; Encoding::for_bom on all strings up to 3 bytes.',
+            'Exploration: every prefix of length 0..=3 over {EF BB BF FE FF 00 41 80} x tails x all cut sets of the first bytes x 3 BOM modes x sinks x capacities for all 40 encodings (exhaustive), atom-based core with BOM look-alike prefixes, seeded random histories, capacity patterns that begin below the minimum; the one-shot decode methods on every such prefix at the start and after an ASCII run; Encoding::for_bom on all strings up to 3 bytes and on each BOM / look-alike followed by every pair of bytes.',
             'BOM recognition is specified by the three literal prefixes of the property text.',
             'DESIGN.md sec. 6 C10'),
     'C11': ('differential testing of the one-shot API against the streaming converters + borrow-promise predicate; ' + PBT,
-            'Exploration: first special unit at every offset 0..=130 x extra lengths x BOM prefixes for all encodings, ASCII-only inputs, encode with first non-ASCII at every offset and unmappable-heavy tails, seeded random inputs; text/bytes, flags, encoding used, None-iff-malformed, Cow variant and aliasing; UTF-8 also with the scalar validator forced.',
+            'Exploration: first special unit at every offset 0..=130 x extra lengths x BOM prefixes for all encodings, ASCII-only inputs, encode with first non-ASCII at every offset and unmappable-heavy tails, k copies of X then Y for every k to 300, k specials then a varied ASCII run, inputs of 64 KiB to 16 MiB, seeded random inputs; text/bytes, flags, encoding used, None-iff-malformed, Cow variant and aliasing; UTF-8 also with the scalar validator forced.',
             'No borrow assertion for empty input.',
             'DESIGN.md sec. 6 C11'),
     'C12': ('round-trip testing with per-prefix invariants over generated encoder histories and a scalar sweep; ' + PBT,
@@ -56,35 +56,35 @@ CHECKS = {
             'The folding set is typed in from the Standard; the decoder used is the crate\'s own (C01).',
             'DESIGN.md sec. 6 C12'),
     'C13': ('differential testing against a model of the Standard\'s get-an-encoding on a frozen label table; exhaustive edit/case/padding families + seeded random strings',
-            'Exploration: 228 labels x all single-byte substitutions/insertions/deletions, all case masks up to 12 bytes, all paddings up to 2x2 bytes from a 9-byte set, inner whitespace, over-long strings, names, random strings.',
+            'Exploration: 228 labels x all single-byte substitutions/insertions/deletions, all case masks up to 12 bytes, all paddings up to 2x2 bytes from a 9-byte set, inner whitespace, over-long strings, names, every string of up to 4-5 label characters, every 2-3 token sequence over the labels\' vocabulary, ~1900 charset names of other registries, the label between every pair of ~50 delimiters, runs around powers of two, two simultaneous substitutions, random strings.',
             'Trusts data/labels.txt.',
             'DESIGN.md sec. 6 C13'),
     'C14': ('differential testing against std::str::from_utf8 / naive scans over planted-defect families at every length, position and alignment, with the scalar path forced through the hook; ' + PBT,
-            'Exploration: every validator x lengths 0..=160 (320) x alignments x fillers x every invalid class at every position (+ second defect in thorough) + seeded random; default and simd-accel builds, SIMD-validator path and forced scalar path.',
+            'Exploration: every validator x lengths 0..=160 (320) x alignments x fillers x every invalid class at every position with a second defect at stride-relevant distances, ASCII fillers of letters / spaces / punctuation, buffers of 2^k +- 2 units to 65536, the UTF-8 table sweep (every lead x second pair, every three-byte string), valid character x near-valid sequence pairs, all pairs of 48 boundary code units + seeded random; default and simd-accel builds, SIMD-validator path and forced scalar path.',
             'Only this CPU\'s dispatch arms (AVX2 simdutf8 + scalar via hook).',
             'DESIGN.md sec. 6 C14'),
     'C15': ('differential testing of every mem conversion against std-based reference conversions, incl. encodeInto semantics for *_partial; ' + PBT,
-            'Exploration: every mem conversion x source lengths x planted unit classes at every position x destination lengths around the planted position x alignments x fills + seeded random; default and simd-accel builds. F5 (bytes beyond written modified in simd-accel builds) is a recorded open finding.',
+            'Exploration: every mem conversion x source lengths x planted unit classes at every position x destination lengths around the planted position x alignments x fills, a second planted unit at stride-relevant distances, space / punctuation fillers, buffers of 2^k +- 2 units, the UTF-8 table sweep, adjacent-pair families, pairs of near-valid sequences + seeded random; default and simd-accel builds. F5 (bytes beyond written modified in simd-accel builds) is a recorded open finding.',
             'std lossy conversions implement the maximal-subpart policy.',
             'DESIGN.md sec. 6 C15'),
     'C16': ('differential testing against iterator-based definitions written from the documentation; exhaustive over all scalars / code units, planted boundary scalars; ' + PBT,
-            'Exploration: is_char_bidi on every scalar, is_utf16_code_unit_bidi on every unit, every BMP scalar alone through all buffer functions, ~130 boundary scalars planted at every position of buffers of every length, invalid UTF-8 classes, seeded random; default and simd-accel builds.',
+            'Exploration: is_char_bidi on every scalar, is_utf16_code_unit_bidi on every unit, every BMP scalar alone through all buffer functions, ~130 boundary scalars planted at every position of buffers of every length, invalid UTF-8 classes, the same pair / table / long-buffer / filler families as C14, seeded random; default and simd-accel builds.',
             'The RTL set is the documented block list.',
             'DESIGN.md sec. 6 C16'),
     'C17': ('differential testing across build configurations: per-block digests of one deterministic corpus, first differing case extracted on mismatch',
-            'Exploration: ~70M cases (scalar sweep through every encoder, 2-byte sweep through every decoder with transcripts, seeded decoder/encoder histories, mem calls, validator sweeps, long UTF-8) run in default, default+forced-scalar-UTF-8, less-slow-*, fast-legacy-encode and simd-accel+std builds (thorough: + release profile and simd-accel without std); all digests must be identical.',
+            'Exploration: ~73M cases (scalar sweep through every encoder, 2-byte sweep through every decoder with transcripts, seeded decoder/encoder histories, structured histories - uniform runs, two units in a stride, block boundaries -, mem calls and validators on planted sweeps and adjacent pairs, long UTF-8) run in default, default+forced-scalar-UTF-8, less-slow-*, fast-legacy-encode and simd-accel+std builds (thorough: + release profile and simd-accel without std); all digests must be identical.',
             'Only this CPU\'s dispatch arms; logical results only.',
             'DESIGN.md sec. 6 C17'),
     'C18': ('metamorphic testing: identical transcripts and written prefixes under three pairwise-different destination pre-fills; ' + PBT,
-            'Exploration: decoder / encoder histories (all sinks incl. String/Vec spare capacity and str filler texts) and mem calls executed under fills 0x00/0xFF/0xA5; default and simd-accel builds.',
+            'Exploration: decoder / encoder histories (all sinks incl. String/Vec spare capacity and str filler texts) and mem calls (incl. the pair / table / filler / long-buffer families and the uniform-run and block-boundary histories) executed under fills 0x00/0xFF/0xA5; default and simd-accel builds.',
             'Bytes beyond written are documented garbage and not compared.',
             'DESIGN.md sec. 6 C18'),
     'C19': ('twin-decoder differential testing of latin1_byte_compatible_up_to in generated decoder states; ' + PBT,
-            'Exploration: every atom / atom-pair / BOM look-alike prefix x 3 BOM modes x query buffers with each special byte at every position, seeded random (prefix, buffer) pairs; Some(n) semantics via a twin, None justified by pending BOM / never-compatible encoding / observable non-neutrality, query does not disturb the decoder.',
+            'Exploration: every atom / atom-pair / BOM look-alike prefix x 3 BOM modes x query buffers with each special byte at every position, seeded random (prefix, buffer) pairs; Some(n) semantics via a twin, None justified by pending BOM / never-compatible encoding / observable non-neutrality - for ISO-2022-JP decided in both directions by the reference model\'s state machine -, query does not disturb the decoder.',
             'The distinguishing set separates non-neutral states; single-byte exactness uses the frozen indexes.',
             'DESIGN.md sec. 6 C19'),
-    'C20': ('exhaustive enumeration of a finite space: predicates recomputed from decode/encode behaviour',
-            'Complete enumeration: 40 encodings x all byte strings of length <= 2 x all scalar values; equality / hashing on all pairs; names.',
+    'C20': ('exhaustive enumeration of a finite space: predicates recomputed from decode/encode behaviour; differential testing against the reference models on longer inputs through short output buffers',
+            'Complete enumeration: 40 encodings x all byte strings of length <= 2 x all scalar values; equality / hashing on all pairs; names. Plus, for the ASCII-compatible / single-byte claims, ASCII run + each atom / alphabet character + ASCII tail pushed through output buffers shorter than the input and compared with the Standard (sampled, not exhaustive).',
             'is_single_byte is judged on strings of length <= 2.',
             'DESIGN.md sec. 6 C20'),
 }
